@@ -57,6 +57,7 @@ func (dpq *DelayedPriorityQueue) Enqueue(
 	// Requests are processed in current window, if quota allows for it
 	if dpq.currentWindowCounter < dpq.strategy.WindowQuota {
 		dpq.currentWindowCounter++
+		verifhook.Event("dpq.immediate", req.ID)
 		dpq.mutex.Unlock()
 		close(req.doneCh)
 		dpq.cl.Logger.Trace().
@@ -67,6 +68,7 @@ func (dpq *DelayedPriorityQueue) Enqueue(
 	}
 
 	if dpq.totalQueueCount() >= maxQueueSize {
+		verifhook.Event("dpq.refused", req.ID)
 		dpq.mutex.Unlock()
 		dpq.cl.Logger.Trace().Str("requestID", req.ID).
 			Msgf("Request dropped due to queue size limit")
@@ -78,6 +80,7 @@ func (dpq *DelayedPriorityQueue) Enqueue(
 		Msgf("Sending request to be processed in queue")
 	heap.Push(&dpq.queue, req)
 	dpq.requestCounts[req.priority]++
+	verifhook.Event("dpq.queued", req.ID, req.timestamp.Format(time.RFC3339Nano))
 
 	dpq.mutex.Unlock()
 
@@ -91,6 +94,7 @@ func (dpq *DelayedPriorityQueue) Enqueue(
 		dpq.mutex.Lock()
 		defer dpq.mutex.Unlock()
 		dpq.requestCounts[req.priority]--
+		verifhook.Event("dpq.left", req.ID, "granted")
 		return true, nil
 	case <-dpq.clock.After(ttl):
 		dpq.cl.Logger.Trace().Str("requestID", req.ID).
@@ -98,6 +102,7 @@ func (dpq *DelayedPriorityQueue) Enqueue(
 		dpq.mutex.Lock()
 		defer dpq.mutex.Unlock()
 		dpq.requestCounts[req.priority]--
+		verifhook.Event("dpq.left", req.ID, "ttl")
 		return false, nil
 	}
 }
